@@ -16,12 +16,13 @@ OPAQUE = ("std::time::Instant", "std::time::Duration", "std::net::SocketAddr")
 
 
 class Run:
-    def __init__(self, prog, key, names=None, hooks=None, pre_hooks=None, local_models=None, setup=None, track_content=False, bool_vars=True, max_parts=None, def_models=None, path_sensitive=None):
+    def __init__(self, prog, key, names=None, hooks=None, pre_hooks=None, local_models=None, setup=None, track_content=False, bool_vars=True, max_parts=None, def_models=None, path_sensitive=None, byte_defs=False):
         self.prog = prog
         self.it = it = Interp(prog, M, INVARIANTS, trace=__import__("os").environ.get("E2_TRACE"))
         it.bool_vars = bool_vars
         it.map_key_field = "transaction_id"      # invariant of outstanding_requests (established by send, kept by handle_stun)
         it.track_content = track_content
+        it.byte_defs = byte_defs
         from absint.models_content import use_registry
         use_registry(it)
         if max_parts:
